@@ -12,6 +12,7 @@ extern "C" {
 void br_parse_frame(void *frame, void *ctx);
 void br_reset_iface_states(void);               /* forget every per-interface record (frees through the port) */
 size_t br_iface_state_count(void);
+int    br_reset_level(void);                    /* 1: records can be forgotten between cases; 0: fallback, records stay (see core_block_stub.c) */
 
 /* ---- generic automaton access ---- */
 void *br_init_mapping(void);
